@@ -2,6 +2,7 @@
 from checks import symgen, refqr
 
 ID = 'C06'
+PROP_MODULES = ['QRV.Props.C06', 'QRV.Props.C06RMQR']
 RULE = ('bitmaps of sizes {0, 1, 7, 11..29, every valid size of every symbology and +-1, 43x7-style non-square, 181, 185, 1000x3}, origins {(0,0), (5,5), (-3,-3)}, contents: blank, '
         'all dark, noise, valid symbols of every symbology cropped / padded / pasted on a canvas of another version\'s size / shifted to a non-zero origin / with another version\'s '
         'format information stamped in / fed to the wrong symbology\'s decoder; each fed to all three DecodeBitmap functions under recover(), with a memory limit. '
